@@ -142,6 +142,24 @@ def break_ops(m: Mol, rnd):
             from fractions import Fraction
             rnd.choice(ds).w = Fraction(-1 - k)
             yield ("negative-weight", m2.text(), "generate")
+    # negative weight written as a transition list of the right length whose entries are negative (its weight is the list's sum)
+    for e in stos:
+        n = sum(len(t.descs) for t in e.rep + e.end)
+        for pattern in ("all", "one"):
+            m2 = copy.deepcopy(m)
+            e2 = [x for x in m2.elems if isinstance(x, Sto)][stos.index(e)]
+            ds = [d for t in e2.rep for d in t.descs if not d.implicit]
+            if not ds or n < 2:
+                continue
+            from fractions import Fraction
+            d = ds[-1]
+            d.w = None
+            d.tr = [Fraction(-1)] * n if pattern == "all" else [Fraction(0)] * (n - 1) + [Fraction(-3)]
+            for t in m2.tokens():
+                if hasattr(t, "_chem"):
+                    del t._chem
+            yield ("negative-weight", m2.text(), "generate")
+        break
     # text after a mixture specifier / percentages outside 0..100
     yield ("text-after-mixture", base + ".|100|CC", "parse")
     yield ("text-after-mixture", base + ".|10%| C", "parse")
@@ -276,6 +294,31 @@ def run(tier):
                 v.violation(f"C15:not-rejected-at-parse:{rule}", f"{text!r} violates '{rule}' but is accepted by the parser (later outcome {o})", {"text": text, "rule": rule})
             elif rule == "negative-weight" and o[0] == "generate-raises" and o[2]:
                 v.violation("C15:negative-weight-reported-generable", f"{text!r}: negative weight but generable is True", {"text": text})
+    # (2b) systems with a component that cannot be generated (no distribution / negative weight), in every position: the system is not generable
+    #      and both entry points refuse (whichever component a random pick would have drawn)
+    good = ["CCO", "CC{[$][$]CC[$][$]}|gauss(50, 5)|CO"]
+    bad = ["CC{[$][$]CC[$][$]}CN", "CC{[$][$|-2|]CC[$][$]}|gauss(50, 5)|CN"]
+    for b in bad:
+        for pos in range(3):
+            comps = [good[0], good[1]]
+            comps.insert(pos, b)
+            text = "".join(c + sp for c, sp in zip(comps, (".|30%|", ".|30%|", ".|400|")))
+            rules["system-with-non-generable-component"] = rules.get("system-with-non-generable-component", 0) + 1
+            n_obj += 1
+            try:
+                so = g.System(text)
+            except Exception:
+                continue          # rejected at construction: fine
+            if so.generable:
+                v.violation("C15:system-with-non-generable-component-reported-generable", f"System({text!r}).generable is True although component {pos + 1} cannot be generated", {"text": text})
+            for seed in range(4):
+                for how, call in (("generate", lambda r: so.generate(rng=r)), ("generator", lambda r: next(iter(type(so).generator.fget(so, r))))):
+                    try:
+                        mg = call(np.random.default_rng(seed))
+                        v.violation(f"C15:accepted:generate-non-generable:system:{how}", f"System({text!r}).{how} returns {getattr(mg, 'smiles', mg)!r} although the system is not generable", {"text": text})
+                        break
+                    except Exception:
+                        pass
     # (3) byte-level mutations: parsing terminates
     alphabet = "[]{}()|.,;$<>=#%0123456789 CNOHFclBr"
     bases = [m.text() + x for m in lib[:40] for x in ("", ".|1000|")]
